@@ -21,6 +21,6 @@ NOT_APPLICABLE = {}
 
 # groups whose checks are registered in MANIFEST.json (a group is added here once it has been reviewed,
 # exits 0 on the unchanged tree and has been tried against mutants)
-ENABLED_GROUPS = ["speed", "dispatch", "control", "consist", "netrules", "pathprofile", "checkpoint", "determinism", "powerflow", "history", "mass"]
+ENABLED_GROUPS = ["speed", "dispatch", "control", "consist", "netrules", "pathprofile", "checkpoint", "determinism", "powerflow", "history", "mass", "trainsim"]
 
 CHECKS = {}
